@@ -248,6 +248,13 @@ func (e *SpecEnv) eval(x ast.Expr) Val {
 				return Scalar{smtInt(new(big.Int).Neg(n)), SInt, sc.Ty}
 			}
 			return Scalar{fmt.Sprintf("(- %s)", sc.T), SInt, sc.Ty}
+		case token.XOR:
+			sc := a.(Scalar)
+			ii, ok := isIntType(sc.Ty)
+			if !ok || sc.S == SInt && !e.c.ar.bv {
+				specFail("bitwise complement needs a typed bit-vector operand")
+			}
+			return Scalar{e.c.ar.not(sc.T, ii), sc.S, sc.Ty}
 		case token.AND:
 			// address-of: &x.f
 			return e.addrOf(v.X)
